@@ -92,8 +92,10 @@ Init ==
 
 \* An ABOR that overtook a running handler (ab = "pend") becomes an ordinary pending ABOR once that handler is done;
 \* one that was already answered (ab = "done") is forgotten.
-Fin(r) == IF r.h.v = "" /\ r.ab = "pend" THEN [r EXCEPT !.h.v = "abor", !.ab = ""]
-          ELSE IF r.h.v = "" /\ r.ab = "done" THEN [r EXCEPT !.ab = ""] ELSE r
+Fin0(r) == IF r.h.v = "" /\ r.ab = "pend" THEN [r EXCEPT !.h.v = "abor", !.ab = ""]
+           ELSE IF r.h.v = "" /\ r.ab = "done" THEN [r EXCEPT !.ab = ""] ELSE r
+\* ... and a pipelined command whose predecessor is done is an ordinary pending command
+Fin(r) == LET q == Fin0(r) IN IF q.h = NoH /\ q.h2 # NoH THEN [q EXCEPT !.h = q.h2, !.h2 = NoH] ELSE q
 Upd(s, r) == ss' = [ss EXCEPT ![s] = Fin(r)]
 
 -----------------------------------------------------------------------------
@@ -132,16 +134,24 @@ SendLine(s, t, v, a, x, n) ==
              Upd(s, [r EXCEPT !.h = [NoH EXCEPT !.v = v, !.a = a, !.x = x, !.n = IF v \in TransferVerbs THEN r.rest ELSE n, !.c0 = r.cwd, !.u0 = r.user],
                               !.line = t, !.rest = rst,
                               !.ab = IF r.ab = "done" THEN "" ELSE @])
+        /\ UNCHANGED uused
      \/ \* ABOR arriving while the handler of the previous command is still running
         /\ r.h # NoH /\ r.h.v # "abor" /\ v = "abor" /\ r.ab = ""
         /\ Upd(s, [r EXCEPT !.ab = "pend", !.line = t, !.rest = 0])
+        /\ UNCHANGED uused
      \/ \* pipelining: a command that touches neither the tree nor the login arrives while the handler of the previous
         \* (non-transfer) command is still suspended in the backend; it is handled at once and may overtake it
         /\ r.h # NoH /\ r.h2 = NoH /\ r.ab = ""
         /\ \/ r.h.v \in OvertakenVerbs /\ v \in OvertakingVerbs
            \/ r.h.v = "pass" /\ v = "user"      \* USER again while the password is still being checked (a user manager that awaits)
-        /\ Upd(s, [r EXCEPT !.h2 = [NoH EXCEPT !.v = v, !.a = a, !.x = x, !.n = n, !.c0 = r.cwd, !.u0 = r.user], !.line = t, !.rest = 0])
-  /\ UNCHANGED <<tree, uused, used, pool, table, srv>>
+           \/ r.h.v = "user" /\ v \in {"user", "pwd", "type", "syst"}   \* ... or while the account is still being looked up
+        \* USER forgets the previous login when its handler starts, not when it answers: a pending USER has done so already,
+        \* an overtaking one has or has not by the time the overtaken handler resumes
+        /\ \E early \in (IF r.h.v = "user" THEN {TRUE} ELSE IF v = "user" THEN BOOLEAN ELSE {FALSE}) :
+             LET r0 == IF early THEN [r EXCEPT !.user = "", !.logged = FALSE, !.rnfr = NoPath] ELSE r IN
+             /\ Upd(s, [r0 EXCEPT !.h2 = [NoH EXCEPT !.v = v, !.a = a, !.x = x, !.n = n, !.c0 = r.cwd, !.u0 = r0.user], !.line = t, !.rest = 0])
+             /\ uused' = IF early /\ r.user # "" THEN [uused EXCEPT ![r.user] = @ - 1] ELSE uused
+  /\ UNCHANGED <<tree, used, pool, table, srv>>
 
 \* A line the server cannot decode or that exceeds the stream limit: the session ends (nothing else may happen)
 Garbage(s, t) ==
@@ -253,13 +263,17 @@ Outcomes(r, t) ==
          LET uu1 == IF r.user # "" THEN [uused EXCEPT ![r.user] = @ - 1] ELSE uused
              r1  == [r EXCEPT !.user = "", !.logged = FALSE, !.rnfr = NoPath]
              cand == UserOf(r.h.x)
-         IN IF cand = {} THEN {Out(<<"530">>, r1, uu1, used)}
-            ELSE LET u == CHOOSE c \in cand : TRUE IN
-                 IF Locked(uu1, u) THEN {Out(<<"530">>, r1, uu1, used)}
-                 ELSE LET uu2 == [uu1 EXCEPT ![u] = @ + 1]
-                          r2 == [r1 EXCEPT !.user = u, !.cwd = UCfg[u].home] IN
-                      IF NeedsPw(u) THEN {Out(<<"331">>, r2, uu2, used)}
-                      ELSE {Out(<<"230">>, [r2 EXCEPT !.logged = TRUE], uu2, used)}
+             \* a login found in place by a pipelined USER that dropped the login when it started was made by another USER
+             \* meanwhile: it is superseded, and it may still have held its slot when this account was looked up
+             conc == r.h.u0 = "" /\ r.user # ""
+             with(uu) == IF cand = {} THEN {Out(<<"530">>, r1, uu1, used)}
+                         ELSE LET u == CHOOSE c \in cand : TRUE IN
+                              IF Locked(uu, u) THEN {Out(<<"530">>, r1, uu1, used)}
+                              ELSE LET uu2 == [uu1 EXCEPT ![u] = @ + 1]
+                                       r2 == [r1 EXCEPT !.user = u, !.cwd = UCfg[u].home] IN
+                                   IF NeedsPw(u) THEN {Out(<<"331">>, r2, uu2, used)}
+                                   ELSE {Out(<<"230">>, [r2 EXCEPT !.logged = TRUE], uu2, used)}
+         IN IF conc THEN with(uu1) \cup with(uused) ELSE with(uu1)
     [] v = "pass" ->
          \* a password authorises only the account it was sent for: if USER was sent again meanwhile the PASS is out of sequence
          IF r.h.u0 # r.user THEN same(<<"503">>, r) \cup same(<<"530">>, r)
